@@ -317,8 +317,10 @@ struct Srv
         bcv.wait(l, [this] { return release; });
       });
     }
-    for (int i = 0; i < 2000 && started.load() + 1 < static_cast<int>(maxThreads); ++i)
+    // all workers but one must be parked before the first request is dispatched (otherwise handlers could run out of order)
+    for (int i = 0; i < 30000 && started.load() + 1 < static_cast<int>(maxThreads); ++i)
       std::this_thread::sleep_for(std::chrono::milliseconds(1));
+    if (started.load() + 1 < static_cast<int>(maxThreads)) { std::fprintf(stderr, "c15 harness: could not park the pool workers\n"); _exit(96); }
   }
 
   void drainPool()
